@@ -99,6 +99,16 @@ func checkValidity(
 	if err := header.ValidateBasic(); err != nil {
 		return err
 	}
+	// the revision number is not part of the block: the same block filed under two revision
+	// numbers gets two consensus states sharing one header index entry, and pruning the
+	// first makes every later update fail
+	if header.Height.RevisionNumber != clientState.Header.Height.RevisionNumber {
+		return sdkerrors.Wrapf(
+			clienttypes.ErrInvalidHeader,
+			"header revision %d does not match the client's revision %d",
+			header.Height.RevisionNumber, clientState.Header.Height.RevisionNumber,
+		)
+	}
 	if err := verifyHeader(ctx, cdc, store, clientState, header); err != nil {
 		return err
 	}
